@@ -11,8 +11,8 @@ The trace-inclusion clause is proved for all inputs (`C13_trace_inclusion`, `Lem
 every statement tree (arbitrary nesting of blocks, initialization blocks, `if`, `if/else`, `while`), every
 set of `return` locations and every sequence of branch/loop decisions, the statements the source program
 executes up to its first `return` are a prefix of the walk of the lifted CFG under the same decisions —
-for every sufficiently large walk budget (the walk of the spec takes a fuel argument; the theorem holds
-from some budget on, i.e. for the unbounded walk).  The proof builds, by mutual induction over the
+for every sufficiently large walk budget, and in particular for the concrete budget of the executable
+`cfgTrace` (`C13_trace`: the full claim `C13_trace_statement` is a theorem).  The proof builds, by mutual induction over the
 statement tree, a small-step *path* in the block vector for every run of the source semantics; paths are
 stable under every later step of the construction (`Path.mono` along `Ext`: a block whose outgoing edges
 are complete is never modified again, an open block only gets statements appended / its open false target
@@ -20,19 +20,25 @@ resolved / a successor added), pending exits are connected by `complete_basic_bl
 (`connect_complete`, `connect_edges`), and every path is followed by `Trace.walk` (`path_walk`).
 `checks/c13.py` evaluates both executable semantics (`Trace.astTrace`, `Trace.cfgTrace` with its concrete
 budget) on every real AST/CFG pair under every decision sequence up to a bound: that is the tie to the
-code (and covers the concrete budget of `cfgTrace`, which the theorem does not bound).
+code.
 -/
 import Circomspect.Lemmas.TraceLemmas
 import Circomspect.Lemmas.TracePaths
+import Circomspect.Lemmas.TraceBudget
 
 namespace Circomspect.C13
 open Circomspect CfgLift TraceLemmas Trace
 
-/-- the claim with the concrete walk budget of `cfgTrace` (evaluated per instance by the check; the theorem
-    below is for every sufficiently large budget) -/
+/-- the full claim, with the concrete walk budget of the executable `cfgTrace` -/
 def C13_trace_statement : Prop :=
   ∀ (rets : List Loc) (body : Stmt) (bs : List Block) (ps : List Nat) (ds : List Bool),
     lift body = .ok bs ps → isPrefix (astTrace rets body ds) (cfgTrace bs ds) = true
+
+/-- **the full claim is a theorem**: the budget `(|ds| + 1) * (|blocks| + 1)` of `cfgTrace` is always enough,
+    because a fall-through edge of a lifted CFG leads to a larger block index or to a block ending in a
+    branch (`Lemmas/TraceBudget.lean`) -/
+theorem C13_trace : C13_trace_statement :=
+  fun rets body bs ps ds h => TracePaths.trace_inclusion_cfgTrace rets body bs ps ds h
 
 /-- **trace inclusion, for all programs and all decision sequences**: the source trace (up to the first
     `return`) is a prefix of the graph walk, for every sufficiently large walk budget -/
